@@ -1,10 +1,15 @@
 #!/bin/bash
-# Builds the harness against $VERIF_REPO's current working tree (default /repo).
+# Builds the harness against $VERIF_REPO's current working tree (default /repo):
+#   build/vcheck  - every check; pkg/ggql compiled through the overlay (sync -> scheduler shim)
+#   build/vrace   - free-running race pass (no overlay, real sync, -race)        [only with RACE=1]
 source "$(dirname "$0")/env.sh"
 cd "$VERIF_DIR/mc" || exit 2
 MODFILE="$VERIF_DIR/build/go.mod"
+exec 9>"$VERIF_DIR/build/.lock"; flock 9
 sed "s#=> /repo#=> $VERIF_REPO#" go.mod > "$MODFILE"
 [ -f go.sum ] && cp go.sum "$VERIF_DIR/build/go.sum"
-# serialise concurrent builds (vp check runs checks one at a time, but be safe)
-exec 9>"$VERIF_DIR/build/.lock"; flock 9
-go build -modfile="$MODFILE" -o "$VERIF_DIR/build/vcheck" ./cmd/vcheck || exit 2
+python3 "$VERIF_DIR/bin/mkoverlay.py" || exit 2
+go build -modfile="$MODFILE" -overlay "$VERIF_DIR/build/overlay.json" -tags vsched -o "$VERIF_DIR/build/vcheck" ./cmd/vcheck || exit 2
+if [ "${RACE:-1}" = "1" ]; then
+  go build -modfile="$MODFILE" -race -o "$VERIF_DIR/build/vrace" ./cmd/vrace || exit 2
+fi
